@@ -437,6 +437,11 @@ def run_real(ctx, prop, cov, dist):
         spec = pinned[r + len(pinned)] if r < 0 else gen_spec(ctx, r)
         sig, what, case = exec_spec(ctx, prop, spec, pdsh, writer, os.path.join(ctx.scratch, "real%d" % r if r >= 0 else "realpin%d" % -r), real)
         cov["evaluations"] += 1
+        if sig == "timeout":
+            # a timeout alone is re-tried once before it is reported (a loaded machine is not a hanging pdsh)
+            real["timeouts_retried"] = real.get("timeouts_retried", 0) + 1
+            sig, what, case = exec_spec(ctx, prop, spec, pdsh, writer,
+                                        os.path.join(ctx.scratch, "real-retry%d" % (r + len(pinned))), real)
         if spec.get("pinned") == "exec-fails":
             real["pinned_exec_failures"] = real.get("pinned_exec_failures", 0) + len(case.get("exec_failed", []))
         if sig:
